@@ -9,6 +9,8 @@ R2  every memory access of a scanner function is rooted at a parameter, a local,
 R3  no scanner function refers to a libc function that POSIX lists as not thread-safe.
 R5  C++: every member that yy_init_globals of the C scanners resets and that a member function reads is initialised on every
     constructor path, so that a lexer built in recycled storage does not inherit another instance's state (see c13.r8).
+R6  reentrant C / c99 / go: yylex_init*() zero-fills the whole new instance (length >= size of the instance type in the IR) or
+    assigns every member; a short fill leaves the members yy_init_globals() does not assign to the storage's history.
 R4  with %option prefix="foo" every strong external definition carries the prefix (C) or belongs to fooFlexLexer
     (C++); scanners with different prefixes have disjoint strong external definitions.
 """
@@ -429,6 +431,86 @@ def r4(ctx, rep, vs, extra):
                          variant=v1.describe() + ' || ' + v2.describe())
     return n
 
+# ---------------------------------------------------------------- R6
+
+INIT_FUNCS = ('yylex_init', 'yylex_init_extra')
+MEMSETS = ('memset', 'llvm.memset.p0i8.i64')
+
+def _stored_fields(fn, sname, depth=0, seen=None):
+    """names of the members of struct `sname` that fn, or a scanner function it calls, stores"""
+    seen = seen if seen is not None else set()
+    if fn.name in seen or depth > 2: return set()
+    seen.add(fn.name)
+    res = ir.Resolver(fn); out = set()
+    for x in fn.ins:
+        if x.op == 'store':
+            c = ir.loc_class(res.loc(x.ops[1]))
+            if c and c[0] == 'field' and c[1] == sname: out.add(c[2])
+        elif x.op in ('call', 'invoke') and isinstance(x.callee, str) and x.callee in fn.mod.functions and norm(x.callee) not in ('yyalloc', 'yyrealloc', 'yyfree'):
+            out |= _stored_fields(fn.mod.functions[x.callee], sname, depth + 1, seen)
+    return out
+
+def r6(rep, v, prog, mod):
+    """reentrant C / c99 / go: the function that allocates the instance hands it out fully initialised - a zero fill as long as the
+    instance structure (size taken from the IR type), or a store to every member before it returns"""
+    n = 0
+    byname = {}
+    for f in mod.functions.values(): byname.setdefault(norm(f.name), f)
+    ig = byname.get('yy_init_globals')
+    if ig is None: rep.broken('variant %s has no yy_init_globals' % v.name)
+    # the instance type: the structure whose members yy_init_globals assigns
+    res = ir.Resolver(ig); cnt = {}
+    for x in ig.ins:
+        if x.op == 'store':
+            c = ir.loc_class(res.loc(x.ops[1]))
+            if c and c[0] == 'field': cnt[c[1]] = cnt.get(c[1], 0) + 1
+    if not cnt: rep.broken('variant %s: yy_init_globals assigns no structure member' % v.name)
+    sname = max(cnt, key=cnt.get)
+    tname = next((t for t in mod.types if ir.short_struct(t) == sname and mod.types[t] is not None), None)
+    if tname is None: rep.broken('variant %s: instance type %s has no definition in the IR' % (v.name, sname))
+    ty = ir.Ty('named', tname)
+    size = mod.sizeof(ty); names = mod.struct_fields(tname) or []; offs = mod.field_offsets(ty)
+    if size < 64 or len(names) != len(offs): rep.broken('variant %s: cannot lay out %s (size %d, %d members)' % (v.name, tname, size, len(names)))
+    fns = [byname[k] for k in INIT_FUNCS if k in byname]
+    if not fns: rep.broken('variant %s has no yylex_init' % v.name)
+    for fn in fns:
+        n += 1
+        o = Origins(fn); cfg = prog.cfg(fn)
+        allocs = [x for x in fn.ins if x.op == 'call' and isinstance(x.callee, str) and norm(x.callee) == 'yyalloc']
+        key0 = 'C12.R6:%s:%s' % (skel(v), norm(fn.name))
+        if not allocs:
+            rep.fail('C12.R6', key0 + ':no-allocation', fwhere(fn), '%s does not allocate the instance [variant %s]' % (fn.name, v.name), variant=v.describe()); continue
+        asz = allocs[0].ops[0]
+        if asz[0] != 'int' or asz[1] < size:
+            rep.fail('C12.R6', key0 + ':instance-allocated-short', where(allocs[0]), '%s allocates %s bytes for an instance of type %s, which is %d bytes long [variant %s]' % (
+                fn.name, asz[1] if asz[0] == 'int' else 'a non-constant number of', sname, size, v.name), variant=v.describe()); continue
+        # the block: the allocation result, or what was stored through the out-parameter that received it
+        def is_block(a):
+            for r in o.of(a):
+                if r[0] == 'call' and r[2] is allocs[0]: return True
+                if r[0] == 'load':
+                    for q in o.roots(r[1]):
+                        if q[0] == 'param': return True
+            return False
+        inits = [x for x in fn.ins if x.op == 'call' and isinstance(x.callee, str) and norm(x.callee) == 'yy_init_globals']
+        fills = []
+        for x in fn.ins:
+            if x.op == 'call' and x.callee in MEMSETS and len(x.ops) >= 3 and is_block(x.ops[0]) and x.ops[1] == ('int', 0) and x.ops[2][0] == 'int':
+                # the fill counts when no successful return is reachable from the allocation without passing it
+                if not any(y.op == 'call' and y in inits for y in cfg.reach(allocs[0], avoid=[x])) or not inits: fills.append(x)
+        filled = max([x.ops[2][1] for x in fills], default=0)
+        if filled >= size:
+            rep.ok('C12.R6', '%s %s: instance of %d bytes (%s) zero-filled over %d bytes before yy_init_globals' % (v.name, fn.name, size, sname, filled)); continue
+        stored = _stored_fields(fn, sname)
+        left = [names[i] for i in range(len(names)) if names[i] not in stored and (offs[i] + mod.sizeof(mod.types[tname].a[i])) > filled]
+        if not left:
+            rep.ok('C12.R6', '%s %s: zero fill covers %d of %d bytes; every other member is assigned before return' % (v.name, fn.name, filled, size)); continue
+        rep.fail('C12.R6', key0 + ':instance-not-zeroed', where(fills[0]) if fills else fwhere(fn),
+                 '%s zero-fills only %d of the %d bytes of the new instance (%s); %d members that yy_init_globals does not assign keep whatever the storage held before: %s%s [variant %s]' % (
+                     fn.name, filled, size, sname, len(left), ', '.join(left[:10]), ' ...' if len(left) > 10 else '', v.name), variant=v.describe(),
+                 replay_input='reentrant scanner: fill a block with 0xAA, free it, yylex_init(&s) (malloc returns the same block), then yyget_debug(s) / scan with variable trailing context')
+    return n
+
 # ---------------------------------------------------------------- positive controls
 
 def compile_control(ctx, name):
@@ -546,6 +628,7 @@ def run(ctx):
         a, b = r1r2_functions(rep, v, prog, mod, allow_mut, loader_ok, {}, ro)
         tot['fns'] += a; tot['acc'] += b
         tot['ext'] += r3(rep, v, mod)
+        if v.backend in ('r', 'c99', 'go'): tot['init'] = tot.get('init', 0) + r6(rep, v, prog, mod)
     n4 = r4(ctx, rep, vs, extra)
     # R5: a C++ lexer object does not depend on what its storage held before (shared implementation with C13.R8)
     import c13
@@ -559,6 +642,8 @@ def run(ctx):
             mod = variants.module(v); prog = variants.program(v)
             n5 += c13.r8(rep, v, prog, mod, c13.Flow(prog, mod), cinit, rule='C12.R5')
     rep.setcount('constructor_member_checks', n5)
+    rep.setcount('instance_allocators_checked', tot.get('init', 0))
+    rep.floor('C12.R6', 85, 'yylex_init and yylex_init_extra in every reentrant-C variant, yylex_init in every c99 / go variant')
     rep.floor('C12.R5', 280, 'measured 316 (quick): 10-16 members x 2 constructors in each C++ variant')
     rep.require(ntab >= 2, 'fewer than 2 reentrant --tables-file variants analysed')
     rep.setcount('variants_analysed', len(iso) + len(extra))
